@@ -44,6 +44,7 @@ func (f *psLN) ListPeers(context.Context) ([]peersync.PeerID, error) {
 func TestC26CsvRefundQuarantine(t *testing.T) {
 	col := stats.Get("C26.quarantine")
 	rapid.Check(t, func(t *rapid.T) {
+		sim.CaseStart(t)
 		w := sim.NewWorld()
 		defer w.Close()
 		a := w.AddNode("alice")
